@@ -531,6 +531,13 @@ pub fn run(ctx: &Ctx) {
     }
     ctx.enumerate("e2e_chain_positions", e2e.len() as u64, false, |i| e2e[i as usize].clone(), check_e2e);
 
+    // released signatures over messages whose digest has a structured content (zero runs, repeated
+    // bytes, aligned zero / equal words): byte-exact against the reference signer, which places
+    // every chain at the RFC digit, and accepted by the verifier
+    let sc = structured_cases(ctx);
+    ctx.enumerate("structured_digests", sc.len() as u64, false, |i| sc[i as usize].clone(), |c: &StructCase| check_structured(ctx, c));
+    ctx.require_class("structured_digests", "sha256_256|w4|equal-word-aligned");
+
     // the verifier's side of the encoding: signatures whose chain values sit at chosen positions
     let mut vc: Vec<VerifierCase> = Vec::new();
     let vreps = ctx.tier.pick(12u64, 120u64);
